@@ -385,7 +385,7 @@ func (m *Machine) chanSend(ch *Chan, v Value) {
 		m.block(func() bool { return false }, "send on nil channel")
 		return
 	}
-	m.selectCases([]selCase{{ch: ch, send: true, val: v}}, true, fmt.Sprintf("chan send #%d", ch.ID))
+	m.selectCases([]selCase{{ch: ch, send: true, val: v}}, true, "chan send")
 }
 
 func (m *Machine) chanRecv(ch *Chan) (Value, bool) {
@@ -394,7 +394,7 @@ func (m *Machine) chanRecv(ch *Chan) (Value, bool) {
 		m.block(func() bool { return false }, "receive from nil channel")
 		return nil, false
 	}
-	_, v, ok := m.selectCases([]selCase{{ch: ch}}, true, fmt.Sprintf("chan recv #%d", ch.ID))
+	_, v, ok := m.selectCases([]selCase{{ch: ch}}, true, "chan recv")
 	return v, ok
 }
 
